@@ -283,10 +283,13 @@ func (g *G) genSWR(id string) *History {
 		rp.Hang = hang
 		op := Op{Op: "req", AtNs: at, Method: "GET", URL: "http://a.test/swr", Replies: []Reply{rp}}
 		if g.chance(0.2) {
-			op.Cancel = pick(g, "before", "after", "dl:60000000000", "dl:60000000000", "dl:1000000000", "dl:100000000000")
+			op.Cancel = pick(g, "before", "after", "dl:60000000000", "dl:60000000000", "dl:1000000000", "dl:100000000000", "chan-after", "chan-after", "chan-before")
 		}
 		if g.chance(0.15) {
 			op.Hdr = Hdr{{"Cache-Control", pick(g, "max-stale=5", "only-if-cached", "no-cache", "max-age=1")}}
+		}
+		if g.chance(0.1) {
+			op.ReqBody = "payload" // a GET may carry a body; it is the caller's again once RoundTrip has returned
 		}
 		h.Ops = append(h.Ops, op)
 		// the next request comes after the background work has certainly ended, at an instant
@@ -351,6 +354,15 @@ func (g *G) genFaithful(id string) *History {
 		}
 	}
 	rp := Reply{Status: pick(g, 200, 200, 200, 203, 404, 410, 301), Hdr: hd, Body: g.randBody(), BodyFail: -1}
+	if g.chance(0.08) {
+		// a 204 whose length the upstream left unknown (HTTP/2 after Flush; any custom RoundTripper)
+		rp.Status, rp.Body, rp.UnknownLen = 204, "", true
+		rp.Hdr = append(rp.Hdr, [2]string{"Cache-Control", "max-age=600"})
+	}
+	if g.chance(0.08) {
+		// an origin field that happens to carry the name the cache uses inside its stored form
+		rp.Hdr = append(rp.Hdr, [2]string{"X-Httpcache-Stored-Body-Length", pick(g, "5", "", "77")})
+	}
 	switch g.r.Intn(6) {
 	case 0:
 		rp.Chunked = true
